@@ -32,8 +32,12 @@ RULE = ("one run = one seeded tunnel session with overlapping failure operations
 REAL = ["xknx.io.tunnel.UDPTunnel/TCPTunnel", "xknx.core.ConnectionManager", "xknx.io.KNXIPInterface (xknx mode)",
         "xknx.XKNX.start/stop (xknx mode)", "xknx.io.request_response.*", "xknx.io.transport.*",
         "xknx.io.data_connection.ConnectionHeartbeat"]
-STUB = ["gateway (SimGateway)", "network (SimNet)", "loop clock/selector (SimLoop)"]
-ASSUMPTIONS = ["non-threaded interface only (ConnectionConfig.threaded=False)",
+STUB = ["gateway (SimGateway)", "network (SimNet)", "loop clock/selector (SimLoop)",
+        "main loop of threaded mode (some runs): BusyMainLoop stands in for ConnectionManager._main_loop and applies the state "
+        "reports handed over with call_soon_threadsafe in order, when its seeded busy window ends"]
+ASSUMPTIONS = ["the connection thread of threaded mode is not a real thread: the interface runs on the simulated loop, only the "
+               "hand-over of its state reports to a (busy) main loop is simulated; 'CONNECTED only when a ConnectResponse is "
+               "consumed' is not judged in those runs (the report is applied later)",
                "CPython 3.12 BaseEventLoop scheduling semantics",
                "routing connections are covered by their own worlds (C27/C30 modules) for lifecycle clauses"]
 GA = W.ga(3, 1, 1)
@@ -103,8 +107,40 @@ def gen(seed: int, tier: str) -> dict[str, Any]:
            # a one-shot listener ("wait until connected once") registered between the two recording callbacks: it
            # unregisters itself from inside its notification
            "oneshot_cb": rng.choice([None, None, "CONNECTED", "DISCONNECTED", "CONNECTING"])}
+    if rng.random() < 0.15 and ops:
+        # threaded mode seen from the connection's side: state reports are handed to the main loop with
+        # call_soon_threadsafe and applied there in order - later, while the main loop is busy (windows around the faults)
+        cfg["main_loop_busy"] = [[round(max(0.0, o["t"] - rng.choice([0.0, 0.001, 0.2])), 6), rng.choice([0.05, 0.5, 3.0, 10.0])]
+                                 for o in ops if o["op"] not in ("send", "send_cancel", "gw_restart")][:4]
     return {"seed": seed, "tier": "S" if cfg["batch"] == 1 else "P", "config": cfg, "ops": ops, "gw": gwscript,
             "fault_policy": policy}
+
+
+class BusyMainLoop:
+    """Stands in for the main loop of threaded mode (ConnectionManager._main_loop): callbacks handed over with
+    call_soon_threadsafe run in order, one loop iteration later - or when the current busy window of the main loop ends."""
+
+    def __init__(self, loop, R):
+        self.loop, self.R = loop, R
+        self.windows: list[tuple[float, float]] = []
+        self.q: list[tuple[Any, tuple]] = []
+        self.scheduled = False
+
+    def call_soon_threadsafe(self, cb, *args):
+        self.q.append((cb, args))
+        if not self.scheduled:
+            self.scheduled = True
+            now = self.loop.time()
+            due = next((b for (a, b) in self.windows if a <= now < b), now)
+            if due > now:
+                self.R.extra_faults["state_report_waits_for_busy_main_loop"] += 1
+            self.loop.call_at(due, self._drain)
+
+    def _drain(self):
+        self.scheduled = False
+        items, self.q = self.q, []
+        for cb, args in items:
+            cb(*args)
 
 
 def run(plan: dict[str, Any]) -> dict[str, Any]:
@@ -173,6 +209,10 @@ def run(plan: dict[str, Any]) -> dict[str, Any]:
             xknx = XKNX(connection_config=cc)
             tunnel = None
         info["xknx"] = xknx
+        busy = None
+        if cfg.get("main_loop_busy"):
+            busy = BusyMainLoop(loop, R)
+            xknx.connection_manager._main_loop = busy      # what ConnectionManager.register_loop() sets in threaded mode
         xknx.connection_manager.register_connection_state_changed_cb(mk_cb(0, xknx))
         if cfg.get("oneshot_cb"):
             unreg: list[Any] = [None]
@@ -201,6 +241,8 @@ def run(plan: dict[str, Any]) -> dict[str, Any]:
             return
         info["tunnel"] = tunnel
         t0 = loop.time()
+        if busy is not None:
+            busy.windows = [(t0 + a, t0 + a + d) for (a, d) in cfg["main_loop_busy"]]
         tasks: list[asyncio.Task] = []
         pid = [0]
 
@@ -439,7 +481,7 @@ def oracle(R: Run, plan, info, traces, udp):
     # (d) CONNECTED only at the instant a successful ConnectResponse is consumed
     state_events = [(n, t, d) for (n, t, it, k, a, d) in R.events if k == "state"]
     for (n, t, d) in state_events:
-        if d == "CONNECTED":
+        if d == "CONNECTED" and not cfg.get("main_loop_busy"):     # (reports reach a busy main loop later)
             if not any(abs(tr_ - t) < 1e-9 and nr < n for (nr, tr_) in connect_res_ok):
                 R.violate("C25.connected-means-established", "connected-without-connect-response",
                           f"state CONNECTED at {t} without a successful ConnectResponse delivered at that instant")
